@@ -327,18 +327,19 @@ class SMI(Machine):
         mch = re.match(r'(?:core::char::methods::<impl char>|char::methods::<impl char>|char)::(\w+)$', c)
         if mch and isinstance(d0, str) and len(d0) == 1:
             f = mch.group(1)
-            table = {'is_uppercase': str.isupper, 'is_lowercase': str.islower, 'is_alphabetic': str.isalpha, 'is_numeric': str.isnumeric,
-                     'is_alphanumeric': str.isalnum, 'is_whitespace': str.isspace, 'is_ascii_uppercase': lambda ch: 'A' <= ch <= 'Z',
+            std_ = lambda pred: (lambda ch: native.char_is(pred, ch))
+            table = {'is_uppercase': std_('is_uppercase'), 'is_lowercase': std_('is_lowercase'), 'is_alphabetic': std_('is_alphabetic'), 'is_numeric': std_('is_numeric'),
+                     'is_alphanumeric': std_('is_alphanumeric'), 'is_whitespace': std_('is_whitespace'), 'is_control': std_('is_control'), 'is_ascii_uppercase': lambda ch: 'A' <= ch <= 'Z',
                      'is_ascii_lowercase': lambda ch: 'a' <= ch <= 'z', 'is_ascii_digit': lambda ch: '0' <= ch <= '9',
                      'is_ascii_alphabetic': lambda ch: ch.isascii() and ch.isalpha(), 'is_ascii_alphanumeric': lambda ch: ch.isascii() and ch.isalnum(),
                      'is_ascii': str.isascii, 'is_ascii_punctuation': lambda ch: ch.isascii() and not ch.isalnum() and not ch.isspace() and ch.isprintable(),
-                     'is_ascii_whitespace': lambda ch: ch in ' \t\n\x0c\r', 'is_control': lambda ch: ord(ch) < 32 or 127 <= ord(ch) < 160}
+                     'is_ascii_whitespace': lambda ch: ch in ' \t\n\x0c\r'}
             if f in table:
                 return bool(table[f](d0))
             if f in ('to_ascii_uppercase', 'to_ascii_lowercase'):
                 return d0.upper() if f.endswith('uppercase') and d0.isascii() else d0.lower() if d0.isascii() else d0
             if f in ('to_uppercase', 'to_lowercase'):
-                return It(iter(list(d0.upper() if f == 'to_uppercase' else d0.lower())))
+                return It(iter(list(native.call(f, d0))))
             if f == 'is_digit':
                 return d0 in '0123456789abcdefghijklmnopqrstuvwxyz'[:args[1]] or d0.lower() in '0123456789abcdefghijklmnopqrstuvwxyz'[:args[1]]
         mord = re.match(r'<([iu](?:8|16|32|64|128|size)|char) as Ord>::(min|max|clamp|cmp)$', c)
@@ -537,6 +538,33 @@ class SMI(Machine):
         if meth == 'clone_from':
             a0.set(clone_val(deref(args[1])))
             return ()
+        # --- RefCell: the cell is a Ref to its contents; borrow guards are transparent (they deref to the contents)
+        if re.match(r'(std::cell::|core::cell::)?RefCell(::<.*>)?::new$', c0):
+            return Ref([a0], 0)
+        if re.match(r'(std::cell::|core::cell::)?RefCell(::<.*>)?::(borrow|borrow_mut|replace|take|into_inner|get_mut)$', c0) and isinstance(d0, Ref) is False and isinstance(a0, Ref):
+            cell = a0
+            while isinstance(cell.get(), Ref):
+                cell = cell.get()
+            if meth in ('borrow', 'borrow_mut', 'get_mut'):
+                return cell
+            if meth == 'replace':
+                old_v = cell.get()
+                cell.set(args[1])
+                return old_v
+            if meth == 'into_inner':
+                return cell.get()
+            raise Unsupported('RefCell method ' + c0)
+        if meth in ('deref', 'deref_mut') and re.search(r'<(std::cell::)?Ref(Mut)?<', c0) and isinstance(a0, Ref):
+            return a0.get() if isinstance(a0.get(), Ref) else a0
+        if meth == 'default' and re.search(r'<RefCell<', c0):
+            inner = re.search(r'<RefCell<(.*)> as', c0).group(1)
+            if re.match(r'(std::collections::)?HashMap<', inner):
+                return Ref([PyMap('hash')], 0)
+            if re.match(r'(std::collections::)?BTreeMap<', inner):
+                return Ref([PyMap('btree')], 0)
+            if re.match(r'(std::vec::)?Vec<', inner):
+                return Ref([[]], 0)
+            raise Unsupported('default ' + c0)
         if meth == 'default':
             t = c0
             if re.search(r'<Option<', t):
@@ -1657,15 +1685,15 @@ class SMI(Machine):
         if meth == 'len':
             return self.smap(lambda s: len(s.encode()), s0)
         if meth == 'trim':
-            return self.smap(lambda s: s.strip(), s0)
+            return self.smap(lambda s: native.call('trim', s), s0)
         if meth == 'trim_start':
-            return self.smap(lambda s: s.lstrip(), s0)
+            return self.smap(lambda s: native.call('trim_start', s), s0)
         if meth == 'trim_end':
-            return self.smap(lambda s: s.rstrip(), s0)
+            return self.smap(lambda s: native.call('trim_end', s), s0)
         if meth == 'to_lowercase':
-            return RString(self.smap(lambda s: s.lower(), s0))
+            return RString(self.smap(lambda s: native.call('to_lowercase', s), s0))
         if meth == 'to_uppercase':
-            return RString(self.smap(lambda s: s.upper(), s0))
+            return RString(self.smap(lambda s: native.call('to_uppercase', s), s0))
         if meth in ('to_string', 'to_owned'):
             return RString(s0)
         if meth in ('starts_with', 'ends_with', 'contains'):
@@ -1716,9 +1744,9 @@ class SMI(Machine):
         if meth == 'rsplit':
             return It(iter(s.split(self.cstr(args[1]))[::-1]))
         if meth == 'lines':
-            return It(iter(s.splitlines()))
+            return It(iter(native.rust_lines(s)))
         if meth == 'split_whitespace':
-            return It(iter(s.split()))
+            return It(iter(native.rust_split_whitespace(s)))
         if meth == 'chars':
             return It(iter(list(s)))
         if meth == 'bytes':
